@@ -226,6 +226,27 @@ CHECKS["C16"] = dict(
 PENDING = "check not built yet in this round (the TLA+ model for it is planned in DESIGN.md section 5); listed here until its check is registered"
 
 
+# EnvLedgerTrace.tla (eighth round): the clauses each property owns in the TLC validation of long recorded TradingEnv episodes
+_EL = {
+    "C01": "positions and NLV after every delivered quote, every execution and every step",
+    "C05": "posted margins and the cash balance after every execution and every step",
+    "C03": "a target in numbers of contracts is held exactly after its execution; no step fails on a solvent, fully quoted account",
+    "C12": "the trades each execution emitted; no step fails on a solvent, fully quoted account",
+    "C07": "both Context snapshots of every record entry, one entry per executed decision, the PnL reward of every step",
+    "C08": "the executed request is the action submitted `delay` steps earlier; every quote delivered before / after an execution "
+           "lies inside / outside the latency window",
+    "C15": "done is reported exactly on the episode's last timestep, over two folds whose bounds lie less than a microsecond from "
+           "a nanosecond-resolution stamp, whole-fold and fixed-length episodes with a forced start",
+}
+for _p, _t in _EL.items():
+    CHECKS[_p]["text"] += (" In the other direction long random episodes of a real TradingEnv (4-7 contracts, 12-40 timesteps, "
+                           "latency, execution delay, commissions, two episodes, actions in numbers of contracts on a dyadic grid "
+                           "where floats are exact) are recorded and validated line by line by TLC against EnvLedgerTrace.tla, "
+                           "which recomputes the account with LedgerOps: " + _t + ".")
+    if "EnvLedgerTrace" not in CHECKS[_p]["technique"]:
+        CHECKS[_p]["technique"] += "; recorded TradingEnv episodes validated by TLC (EnvLedgerTrace.tla)"
+
+
 def build():
     checks = []
     for p in ALL:
